@@ -347,3 +347,44 @@ func ZZ_C11_WakeupProtocol() {
 	}
 	zzvf.Reach("wakeup")
 }
+
+// the same wake-up protocol for the double queue: Put1 / Put2 / PutForce1 / PutForce2 that
+// add an element broadcast (all waiters, not one) after the add and before the unlock
+func ZZ_C11_WakeupProtocolDouble() {
+	q := NewRequestDoubleQueue(zzvf.Choose(3), zzvf.Choose(3))
+	for i, n := 0, zzvf.Choose(3); i < n; i++ {
+		if zzvf.Choose(2) == 0 {
+			q.Put1(zzvf.Int64())
+		} else {
+			q.Put2(zzvf.Int64())
+		}
+	}
+	sz := q.Size()
+	before := len(zzEvents())
+	kind := []string{"put1", "put2", "putforce1", "putforce2"}[zzvf.Choose(4)]
+	switch kind {
+	case "put1":
+		q.Put1(zzvf.Int64())
+	case "put2":
+		q.Put2(zzvf.Int64())
+	case "putforce1":
+		q.PutForce1(zzvf.Int64())
+	case "putforce2":
+		q.PutForce2(zzvf.Int64())
+	}
+	ev := zzEvents()[before:]
+	added := q.Size() > sz || kind == "putforce1" || kind == "putforce2"
+	zzvf.Assert(len(ev) >= 2 && strings.HasPrefix(ev[0], "lock ") && ev[len(ev)-1] == "un"+ev[0], "wakeup-double/"+kind+"/one-critical-section")
+	if added {
+		lastAdd := -1
+		for i := 1; i < len(ev)-1; i++ {
+			if strings.HasPrefix(ev[i], "unlock ") {
+				lastAdd = i
+			}
+		}
+		b := zzIdx(ev, "broadcast ", 0)
+		zzvf.Assert(b >= 0, "wakeup-double/"+kind+"/broadcast-when-element-added")
+		zzvf.Assert(b > lastAdd && b < len(ev)-1, "wakeup-double/"+kind+"/broadcast-after-add-before-unlock")
+	}
+	zzvf.Reach("wakeup-double")
+}
